@@ -24,7 +24,7 @@ BranchRun(e) == LET f == FirstTrue(e.conds) IN
 FbRun(e) == /\ Chk(e.calls = Rounds(e.T), "rounds_in_order")
             /\ Chk(e.iterations = e.T, "exactly_max_iterations_rounds")
 
-MacRun(e) == /\ Chk(e.calls = MacCalls(e.U, e.D), "encoders_in_user_order_one_constraint_one_channel")
+MacRun(e) == /\ Chk(e.calls = MacCalls(e.encs, e.D), "encoders_in_user_order_one_constraint_one_channel")
              /\ Chk(e.constraint_in = SumSeqs(e.encoded), "superposition_is_the_sum")
 
 WzRun(e) == Chk(e.calls = WzCalls(e.hasQ, e.hasS, e.hasC, e.needCorr), "wyner_ziv_stage_order")
